@@ -235,7 +235,7 @@ def _blame(ctx, v, v2):
     feat = V.feature_of(v)
     try:
         # values that dask tokenizes through pickle: does pickle itself distinguish the two equal values?
-        if (type(v) is frozenset or "object-array" in feat or feat in ("function", "lambda", "partial")) \
+        if (feat == "frozenset" or "object-array" in feat or feat in ("function", "lambda", "partial")) \
                 and pickle.dumps(v, protocol=5) != pickle.dumps(v2, protocol=5):
             feat += "&pickle-bytes-differ"
     except Exception:  # noqa: BLE001
